@@ -75,8 +75,9 @@ def generate(tier, seed):
             d1 = common.draw_model(rng, name, dim, opt_mode="interior", aniso=False, nugget=False)
             d2 = common.draw_model(rng, name, dim, opt_mode="interior", aniso=False, nugget=False)
             cases.append(("scales_history", {"first": d1, "second": d2, "order": int(rng.integers(0, 6))}))
-    for rep in range(10 * n):
-        name = str(rng.choice(common.MODELS))
+    for rep in range(10 * n + len(common.MODELS)):
+        # every class at least once per run, the rest drawn
+        name = common.MODELS[rep] if rep < len(common.MODELS) else str(rng.choice(common.MODELS))
         dim = int(rng.integers(1, 4))
         d = common.draw_model(rng, name, dim, opt_mode="interior", aniso=True, nugget=True)
         cases.append(("variants", {"model": d, "lseed": int(rng.integers(1 << 30)),
